@@ -25,6 +25,7 @@ ASSUMPTIONS = ["main() is driven in-process with scripted sys.argv/stdin/stdout 
                "the after-subcommand position is required to win", "None and '' are identified for rpc_* values",
                "reference: cli ?? file.get(key) ?? default, with TOML preferred whenever config.toml exists"]
 OBLIGATIONS = {
+    "history_sequences": "operation sequences (non-initial process states) explored",
     "cli_over_file": "an explicit option competed with a different config-file value", "toml_over_json": "both files present with different values",
     "file_over_default": "a config-file value different from the default with no explicit option", "junk_key": "a config file with an undefined key",
     "subcommand_redeclares_option": "key/pubkey --output-format (declared by the subcommand itself, with the extra pem choice) covered",
@@ -339,7 +340,24 @@ CASES = {"prec": chk_prec, "behaviour": chk_behaviour, "conv": chk_conv}
 
 
 def run_case(kind, case):
+    if kind == "seq":
+        from vf import seqexplore
+        return seqexplore.replay(run_case, case)
     return CASES[kind](case)
+
+
+def seq_ops(job):
+    """several main() runs in one process image with different layers (nothing may survive between runs)"""
+    ops = []
+    for sub, dest, opt in ((None, "output_format", "--output-format"), ("sha256", "input_format", "--input-format"), ("addr", "network", "--network"),
+                           (None, "log_level", "--log-level")):
+        v = ALPHA[dest]
+        for node in ({"cli": v[0], "toml": {dest: v[1]}, "json": None}, {"cli": None, "toml": None, "json": {dest: v[1]}},
+                     {"cli": None, "toml": None, "json": None}):
+            ops.append(("prec", {"sub": sub, "dest": dest, "opt": opt, "pos": [], **node}))
+    ops.append(("conv", {"mode": "main", "data": "00ff", "out": "bin", "in": "hex"}))
+    ops.append(("conv", {"mode": "roundtrip", "data": "", "out": "hex", "in": "bin"}))
+    return ops
 
 
 # ------------------------------------------------------------------ jobs
@@ -373,10 +391,15 @@ def jobs(tier, seed):
     js = [{"name": f"prec/{sh}", "part": "prec", "shard": [sh, 24], "weight": 10} for sh in range(24)]
     js += [{"name": f"behaviour/{sh}", "part": "behaviour", "shard": [sh, 8], "weight": 6} for sh in range(8)]
     js += [{"name": f"conv/{sh}", "part": "conv", "shard": [sh, 8], "weight": 6} for sh in range(8)]
+    from vf.runner import seq_jobs
+    js += seq_jobs(4, weight=4)
     return js
 
 
 def run_job(job):
+    if job["part"] == "seq":
+        from vf.runner import run_seq_job
+        return run_seq_job(job, seq_ops(job), run_case)
     acc = Acc(job)
     seed, tier, part = job["seed"], job["tier"], job["part"]
     sh, nsh = job["shard"]
